@@ -3125,10 +3125,22 @@ impl Block {
         // update that transaction with this information prior to hashing it in order
         // for the hash-comparison to work.
         //
-        if cv.ft_num > 0 {
-            if let (Some(ft_index), Some(fee_transaction_expected)) =
-                (cv.ft_index, cv.fee_transaction)
+        // the fee transaction creates outputs without inputs, so the block must carry
+        // exactly the one its consensus values call for: a block that omits it loses the
+        // payout, one that carries another mints tokens.
+        //
+        if let Some(fee_transaction_expected) = cv.fee_transaction {
             {
+                let ft_index = match cv.ft_index {
+                    Some(ft_index) if cv.ft_num == 1 => ft_index,
+                    _ => {
+                        error!(
+                            "ERROR 48204: block {} carries {} fee transactions, expected exactly one",
+                            self.id, cv.ft_num
+                        );
+                        return false;
+                    }
+                };
                 if cv.gt_index.is_none() {
                     error!("ERROR 48203: block has fee transaction but no golden ticket");
                     return false;
@@ -3163,6 +3175,12 @@ impl Block {
                     return false;
                 }
             }
+        } else if cv.ft_num > 0 {
+            error!(
+                "ERROR 48205: block {} carries a fee transaction but none is due",
+                self.id
+            );
+            return false;
         }
 
         //
